@@ -18,12 +18,24 @@ class Taxa(object):
     STYLES = ("plain", "plain", "plain", "underscore", "quoted-space", "quoted-quote", "quoted-punct",
               "quoted-underscore", "dash", "dot", "mixedcase")
 
-    def __init__(self, rng, n, hostile=True, ascii_only=True):
+    def __init__(self, rng, n, hostile=True, ascii_only=True, allow_integer=False):
         self.n = n
         self.tokens = []
+        # labels that are plain integers - only in Newick documents, where a number is just a label (in NEXUS a number may also
+        # be a taxon number and its meaning depends on what the shared namespace already holds: not a route difference):
+        # descending, multiples of ten, or small numbers below the number of taxa
+        int_scheme = rng.choice(["reverse", "tens", "small"])
+        if allow_integer and hostile:
+            self.STYLES = self.STYLES + ("integer", "integer")
+            if rng.random() < 0.15:
+                self.STYLES = ("integer",)          # an all-integer document
         for i in range(n):
             st = rng.choice(self.STYLES) if hostile else "plain"
-            if st == "plain":
+            if st == "integer":
+                t = str({"reverse": n - i, "tens": 10 * (i + 1), "small": (i * 2) % (n + 1) + 1}[int_scheme])
+                if t in self.tokens:
+                    t = "tx%d" % i
+            elif st == "plain":
                 t = "tx%d" % i
             elif st == "underscore":
                 t = "Gen_sp%d" % i
@@ -190,7 +202,7 @@ def pick_leaves(rng, n_taxa, full=False):
 
 def newick_doc(rng, hostile=True, nl="\n", force=None):
     n_taxa = rng.choice([1, 2, 3, 4, 5, 6, 8]) if hostile else rng.choice([3, 4, 5])
-    taxa = Taxa(rng, n_taxa, hostile)
+    taxa = Taxa(rng, n_taxa, hostile, allow_integer=True)
     n_trees = rng.choice([1, 2, 3, 4, 6])
     topt = tree_options(rng, hostile)
     topt["nl"] = nl
